@@ -13,7 +13,7 @@ MENU = ["ins:raise", "ins:caught", "item:err", "item:errf", "item:unset", "flush
 CATS = ["outcome-mismatch", "error-identity", "resumed-uncomputed", "nonfuture-typeerror", "spurious-error", "schedule-disagree", "value-shape", "started-missing", "provider-ran-twice", "hang", "worker-died"]
 # what a task does after it has caught an error: yields that carry no future at all, more errors, more handlers
 _AFTER = {"menu": ["ins:caught", "wrap:try", "item:err", "leaf:ef", "ins:raise", "ins:yempty", "ins:ynone", "leaf:n"]}
-LADDER = {"quick": [(4, 1, ["call"]), (3, 2, ["call", "av"]), (2, 3, ["call"]), (3, 2, ["call"], _AFTER), (2, 3, ["call"], _AFTER)],
+LADDER = {"quick": [(4, 1, ["call"]), (3, 2, ["call", "av"]), (2, 3, ["call"]), (3, 2, ["call"], _AFTER)],
           "thorough": [(5, 1, ["call"]), (4, 2, ["call", "av"]), (3, 3, ["call"]), (4, 2, ["call"], _AFTER), (2, 3, ["call"], _AFTER)]}
 SPEC = {"r1": True, "r2": True}
 
